@@ -482,3 +482,197 @@ Lemma property_names_from_model2 :
   /\ same_strings (dedup (map fst EntityGen.property_names))
                   (flat_map (fun i => match nth_error EntityGen.run_order i with Some f => [f] | None => [] end) [3; 5; 6; 8]%nat) = true.
 Proof. split; vm_compute; reflexivity. Qed.
+
+(* ======================================================================================================
+   (9) (ent4, round 3): the run order and the entity parts FOR EVERY DECLARATION (no probe): the sequence of
+   schemas / services / topics the model emits for ANY e is, function by function of the regenerated
+   EntityGen.run_order, what that function defines; the psm parts of ANY expansion are the regenerated
+   EntityPart table.  The proofs unfold the regenerated tables, so a reordering of entityNode.run or another
+   EntityPart constant breaks them at build time. *)
+Definition landmark (c : component) : list bytes :=
+  match c with
+  | CMsg f m => if f =? 0 then [m_name m] else []
+  | CEnum n _ => [n]
+  | CSvc _ s => [sv_name s]
+  end.
+Definition landmarks (cs : list component) : list bytes := flat_map landmark cs.
+
+Lemma flat_map_single_map : forall {A B} (g : A -> B) l, flat_map (fun x => [g x]) l = map g l.
+Proof. induction l as [|x l IH]; [reflexivity|]. cbn. now rewrite IH. Qed.
+
+Lemma landmarks_app : forall a b, landmarks (a ++ b) = landmarks a ++ landmarks b.
+Proof. intros. apply flat_map_app. Qed.
+
+Lemma landmarks_method_msgs : forall (A : Type) (f : A -> list component * omethod) (ms : list A),
+  (forall a, landmarks (fst (f a)) = []) -> landmarks (flat_map fst (map f ms)) = [].
+Proof.
+  intros A f ms H. induction ms as [|a ms IH]; [reflexivity|]. cbn [map flat_map]. rewrite landmarks_app, H, IH. reflexivity.
+Qed.
+
+Lemma landmarks_method : forall base name verb rel req resp sq,
+  landmarks (fst (method_components base name verb rel req resp sq)) = [].
+Proof. intros. destruct resp; reflexivity. Qed.
+
+Lemma landmarks_query : forall e, landmarks (query_components e) = [query_prefix e ++ bs "Query" ++ bs "Service"].
+Proof.
+  intros e. unfold query_components, service_components. rewrite landmarks_app.
+  cbn [map flat_map fst]. rewrite !landmarks_app, !landmarks_method. cbn. now rewrite <- app_assoc.
+Qed.
+
+Lemma landmarks_command : forall e c, landmarks (command_components e c) = [command_service_name e c ++ bs "Service"].
+Proof.
+  intros e c. unfold command_components, service_components. rewrite landmarks_app.
+  rewrite landmarks_method_msgs by (intros; apply landmarks_method). reflexivity.
+Qed.
+
+Lemma landmarks_topic : forall tn mn role en fs, landmarks (topic_components tn mn role en fs) = [to_camel tn ++ bs "Topic"].
+Proof. reflexivity. Qed.
+
+Lemma landmarks_flat_map : forall {A} (g : A -> list component) l, landmarks (flat_map g l) = flat_map (fun x => landmarks (g x)) l.
+Proof. induction l as [|x l IH]; [reflexivity|]. cbn [flat_map]. now rewrite landmarks_app, IH. Qed.
+
+Definition schema_landmark (s : eschema) : bytes := match s with SObject n _ => n | SOneof n _ => n | SEnum n _ => n end.
+Lemma landmarks_schemas : forall l, landmarks (map schema_component l) = map schema_landmark l.
+Proof. induction l as [|[n fs|n fs|n os] l IH]; [reflexivity| | |]; cbn; now rewrite <- IH. Qed.
+
+(* what the function named [f] of entityNode.run defines, for ANY declaration *)
+Definition defines (e : entity) (f : string) : list bytes :=
+  if String.eqb f "acceptKeys" then [component_name e (bs "Keys")]
+  else if String.eqb f "acceptData" then [component_name e (bs "Data")]
+  else if String.eqb f "acceptStatus" then [component_name e (bs "Status")]
+  else if String.eqb f "acceptState" then [component_name e (bs "State")]
+  else if String.eqb f "acceptEventOneof" then [component_name e (bs "EventType")]
+  else if String.eqb f "acceptEvent" then [component_name e (bs "Event")]
+  else if String.eqb f "acceptQuery" then [query_prefix e ++ bs "Query" ++ bs "Service"]
+  else if String.eqb f "acceptCommands" then map (fun c => command_service_name e c ++ bs "Service") (e_commands e)
+  else if String.eqb f "acceptPublishTopic" then [to_camel (camel_name e ++ bs "Publish") ++ bs "Topic"]
+  else if String.eqb f "acceptSummaryTopics" then map (fun s => to_camel (summary_topic_name e s) ++ bs "Topic") (e_summaries e)
+  else [].
+
+Theorem run_order_universal : forall e fl,
+  landmarks (expand_with e fl) = flat_map (defines e) EntityGen.run_order ++ map schema_landmark (e_schemas e).
+Proof.
+  intros e fl. unfold expand_with. rewrite !landmarks_app, landmarks_query, !landmarks_flat_map, landmarks_schemas.
+  unfold publish_components. rewrite landmarks_topic.
+  rewrite (flat_map_ext _ (fun c => [command_service_name e c ++ bs "Service"])) by (intros c; apply landmarks_command).
+  rewrite (flat_map_ext (fun s => landmarks (summary_components e s)) (fun s => [to_camel (summary_topic_name e s) ++ bs "Topic"]))
+    by (intros s; apply landmarks_topic).
+  unfold EntityGen.run_order. cbn [flat_map defines String.eqb Ascii.eqb Bool.eqb app].
+  rewrite !app_nil_r.
+  cbn [landmarks flat_map landmark keys_msg data_msg status_enum state_msg event_type_msg event_msg m_name N.eqb app event_type_name].
+  repeat rewrite <- app_assoc. cbn [app]. unfold event_type_name.
+  rewrite !(flat_map_single_map). reflexivity.
+Qed.
+
+(* ---- entity parts, for ANY declaration ------------------------------------------------------------------- *)
+Definition psm_part (c : component) : list (bytes * N) :=
+  match c with CMsg _ m => match m_psm m with Some (_, p) => [(m_name m, p)] | None => [] end | _ => [] end.
+Definition psm_parts (cs : list component) : list (bytes * N) := flat_map psm_part cs.
+Lemma psm_parts_app : forall a b, psm_parts (a ++ b) = psm_parts a ++ psm_parts b.
+Proof. intros. apply flat_map_app. Qed.
+Lemma psm_parts_method : forall base name verb rel req resp sq,
+  psm_parts (fst (method_components base name verb rel req resp sq)) = [].
+Proof. intros. destruct resp; reflexivity. Qed.
+Lemma psm_parts_method_msgs : forall (A : Type) (f : A -> list component * omethod) (ms : list A),
+  (forall a, psm_parts (fst (f a)) = []) -> psm_parts (flat_map fst (map f ms)) = [].
+Proof.
+  intros A f ms H. induction ms as [|a ms IH]; [reflexivity|]. cbn [map flat_map]. rewrite psm_parts_app, H, IH. reflexivity.
+Qed.
+Lemma psm_parts_flat_nil : forall {A} (g : A -> list component) l, (forall x, psm_parts (g x) = []) -> psm_parts (flat_map g l) = [].
+Proof. intros A g l H. induction l as [|x l IH]; [reflexivity|]. cbn [flat_map]. now rewrite psm_parts_app, H, IH. Qed.
+Lemma psm_parts_query : forall e, psm_parts (query_components e) = [].
+Proof.
+  intros e. unfold query_components, service_components. rewrite psm_parts_app.
+  cbn [map flat_map fst]. rewrite !psm_parts_app, !psm_parts_method. reflexivity.
+Qed.
+Lemma psm_parts_command : forall e c, psm_parts (command_components e c) = [].
+Proof.
+  intros e c. unfold command_components, service_components. rewrite psm_parts_app.
+  rewrite psm_parts_method_msgs by (intros; apply psm_parts_method). reflexivity.
+Qed.
+Lemma psm_parts_schemas : forall l, psm_parts (map schema_component l) = [].
+Proof. induction l as [|[n fs|n fs|n os] l IH]; [reflexivity| | |]; cbn; exact IH. Qed.
+
+(* the EntityPart constant the function named [f] sets, as (schema name, part number) *)
+Definition part_of (e : entity) (p : string * string) : bytes * N :=
+  (component_name e (match drop_prefix (bs "accept") (bs (fst p)) with Some s => s | None => [] end), part_number (snd p)).
+
+Theorem entity_parts_universal : forall e fl,
+  psm_parts (expand_with e fl) = map (part_of e) EntityGen.entity_parts.
+Proof.
+  intros e fl. unfold expand_with. rewrite !psm_parts_app, psm_parts_query, psm_parts_schemas.
+  rewrite (psm_parts_flat_nil (command_components e)) by (apply psm_parts_command).
+  rewrite (psm_parts_flat_nil (summary_components e)) by (intros s; reflexivity).
+  unfold EntityGen.entity_parts. rewrite !app_nil_r. reflexivity.
+Qed.
+
+(* the literal property names of acceptState / acceptEvent / acceptPublishTopic, for EVERY declaration: the JSON
+   names of the State and Event objects and of the publish message are exactly the literals those functions
+   write (as sets: the code lists `status` first) *)
+Definition publish_message_fields (e : entity) : list bytes :=
+  match publish_components e with CMsg _ m :: _ => map f_json (m_fields m) | _ => [] end.
+Theorem property_names_universal : forall e fl,
+  same_names (map f_json (m_fields (state_msg e fl))) (lits_of "acceptState") = true
+  /\ same_names (map f_json (m_fields (event_msg e))) (lits_of "acceptEvent") = true
+  /\ same_names (publish_message_fields e) (lits_of "acceptPublishTopic") = true.
+Proof. intros e fl. repeat split; vm_compute; reflexivity. Qed.
+
+(* Sprintf formats of acceptQuery / acceptPublishTopic applied to the entity's name, for EVERY declaration *)
+Definition last_svc (cs : list component) : option osvc :=
+  match last cs (CEnum [] []) with CSvc _ s => Some s | _ => None end.
+Theorem formats_universal : forall e,
+  fmt_of "acceptQuery" "%sGet" && fmt_of "acceptQuery" "%sList" && fmt_of "acceptQuery" "%sEvents"
+    && fmt_of "acceptQuery" "%sQuery" && fmt_of "acceptPublishTopic" "%sEvent" && fmt_of "acceptPublishTopic" "%sPublish" = true
+  /\ option_map (fun s => (sv_name s, map mt_name (sv_methods s))) (last_svc (query_components e))
+     = Some (sprintf1 (list_ascii_of_string "%sQuery") (query_prefix e) ++ bs "Service",
+             map (fun f => sprintf1 (list_ascii_of_string f) (query_prefix e)) ["%sGet"; "%sList"; "%sEvents"])
+  /\ option_map (fun s => (sv_name s, map mt_name (sv_methods s))) (last_svc (publish_components e))
+     = Some (to_camel (sprintf1 (list_ascii_of_string "%sPublish") (camel_name e)) ++ bs "Topic",
+             [sprintf1 (list_ascii_of_string "%sEvent") (camel_name e)]).
+Proof.
+  intros e. split; [vm_compute; reflexivity|]. split.
+  - unfold query_components, service_components, last_svc. cbn [map flat_map fst snd method_components app last sv_name sv_methods mt_name option_map sprintf1 list_ascii_of_string].
+    repeat (rewrite <- app_assoc). cbn. reflexivity.
+  - unfold publish_components, topic_components, last_svc. cbn. reflexivity.
+Qed.
+
+(* the strcase function each naming site calls (read from the regenerated table), applied to the declared
+   name, for EVERY declaration: the model's name builders are those calls *)
+Theorem strcase_calls_universal : forall e s,
+  component_name e s = apply_fn (the_fn "componentName") (e_name e) ++ apply_fn (the_fn "componentName") s
+  /\ full_name e = e_pkg e ++ [46] ++ apply_fn (the_fn "fullName") (e_name e)
+  /\ snake_name e = apply_fn EntityGen.entity_name_function (e_name e)
+  /\ status_prefix e = apply_fn (the_fn "acceptStatus") (e_name e) ++ the_status_literal
+  /\ status_prefix e = apply_fn (the_fn "findStatus") (e_name e) ++ the_status_literal
+  /\ map f_json (m_fields (event_type_msg e)) = map (fun ev => apply_fn (the_fn "acceptEventOneof") (ev_name ev)) (e_events e)
+  /\ query_prefix e = apply_fn "ToCamel" (snake_name e)
+  /\ own_response_name e = apply_fn "ToSnake" (apply_fn "ToLowerCamel" (snake_name e))
+  /\ camel_name e = apply_fn (the_fn "acceptPublishTopic") (e_name e)
+  /\ (forall sm, summary_topic_name e sm =
+        apply_fn (the_fn "acceptSummaryTopics") (e_name e)
+        ++ match s_name sm with [] => bs "Summary" | n => apply_fn (the_fn "acceptSummaryTopics") n end).
+Proof.
+  intros e s. repeat split; try reflexivity.
+  - cbn [event_type_msg m_fields]. rewrite map_map. reflexivity.
+  - intros sm. unfold summary_topic_name, camel_name. destruct (s_name sm); reflexivity.
+Qed.
+
+(* componentName / innerRef literals, for EVERY declaration: the name a function defines and the generated schemas
+   its properties refer to are componentName applied to an explicit literal list, and that list is (as a set) the
+   list of literals the regenerated table records for the function *)
+Definition msg_sites (m : omsg) : list bytes := m_name m :: flat_map (fun f => local_ref (f_type f)) (m_fields m).
+Definition refs_of (cs : list component) : list bytes :=
+  flat_map (fun c => match c with CMsg _ m => flat_map (fun f => local_ref (f_type f)) (m_fields m) | _ => [] end) cs.
+Definition lits_ok (f : string) (l : list string) : bool := same_names (map bs l) (suffix_lits f).
+Theorem suffix_sites_universal : forall e fl,
+  msg_sites (state_msg e fl) = map (fun s => component_name e (bs s)) ["State"; "Keys"; "Data"; "Status"]%string
+  /\ msg_sites (event_msg e) = map (fun s => component_name e (bs s)) ["Event"; "Keys"; "EventType"]%string
+  /\ m_name (keys_msg e) = component_name e (bs "Keys") /\ m_name (data_msg e) = component_name e (bs "Data")
+  /\ m_name (event_type_msg e) = component_name e (bs "EventType")
+  /\ refs_of (publish_components e) = map (fun s => component_name e (bs s)) ["Keys"; "EventType"; "Data"; "Status"]%string
+  /\ lits_ok "acceptState" ["State"; "Keys"; "Data"; "Status"] = true
+  /\ lits_ok "acceptEvent" ["Event"; "Keys"; "EventType"] = true
+  /\ lits_ok "acceptKeys" ["Keys"] = true /\ lits_ok "acceptData" ["Data"] = true
+  /\ lits_ok "acceptEventOneof" ["EventType"] = true
+  /\ lits_ok "acceptPublishTopic" ["Keys"; "EventType"; "Data"; "Status"] = true.
+Proof. intros e fl. repeat split; try reflexivity; vm_compute; reflexivity. Qed.
